@@ -22,6 +22,8 @@ func init() {
 			{ID: "C03-R4", Doc: "bounded consecutive loss; a success ends the run of losses (shared)", Run: c03r4},
 			{ID: "C06-R7", Doc: "a failed combining attempt leaves nothing behind for its retry (shared)", Run: c06r7},
 			{ID: "C14-R8", Doc: "capacity that failed to start is released from the pending count, so replacements are started (shared)", Run: c14r8},
+			{ID: "C14-R4", Doc: "a stopped machine leaves whichever queue holds it, so it is replaced and never resurrected (shared)", Run: c14r4},
+			{ID: "C10-R3", Doc: "a shuffle input that fails mid-merge is reported, never taken for its end (shared)", Run: c10r3},
 			{ID: "C03-R5", Doc: "released dependents are re-examined, so a dependency lost in the meantime is recomputed (shared)", Run: c03r5},
 		},
 	})
@@ -187,9 +189,11 @@ func c02r2(c *RC) {
 					isMatch := strings.Contains(t, "errors.Match(fatalErr,"+o.name+")")
 					isCtx := false
 					ast.Inspect(cond, func(m ast.Node) bool {
-						if be, ok := m.(*ast.BinaryExpr); ok && be.Op == token.NEQ && expr(be.Y) == "nil" {
-							if k, ok := be.X.(*ast.CallExpr); ok && fn.Pkg.CalleeName(k) == "context.Context.Err" {
-								isCtx = true
+						if be, ok := m.(*ast.BinaryExpr); ok && be.Op == token.NEQ {
+							for _, side := range []ast.Expr{be.X, be.Y} {
+								if k, ok := ast.Unparen(side).(*ast.CallExpr); ok && fn.Pkg.CalleeName(k) == "context.Context.Err" {
+									isCtx = true
+								}
 							}
 						}
 						return true
@@ -402,7 +406,29 @@ func c02r3(c *RC) {
 					}
 				}
 			}
-			if strings.Contains(strings.ReplaceAll(expr(ifs.Cond), " ", ""), ".Severity==errors.Fatal") {
+			sevFatal := false
+			ast.Inspect(ifs.Cond, func(m ast.Node) bool {
+				if be, ok := m.(*ast.BinaryExpr); ok && be.Op == token.EQL {
+					l, r := expr(be.X), expr(be.Y)
+					if strings.HasSuffix(l, ".Severity") && r == "errors.Fatal" || strings.HasSuffix(r, ".Severity") && l == "errors.Fatal" {
+						sevFatal = true
+					}
+				}
+				return true
+			})
+			// the whole condition must be true when the severity is Fatal
+			if v, known := evalCond(ifs.Cond, func(e ast.Expr) (bool, bool) {
+				if be, ok := ast.Unparen(e).(*ast.BinaryExpr); ok && (be.Op == token.EQL || be.Op == token.NEQ) {
+					l, r := expr(be.X), expr(be.Y)
+					if strings.HasSuffix(l, ".Severity") && r == "errors.Fatal" || strings.HasSuffix(r, ".Severity") && l == "errors.Fatal" {
+						return be.Op == token.EQL, true
+					}
+				}
+				return true, true // other conjuncts (type assertion ok, non-nil) assumed to hold
+			}); known && !v {
+				sevFatal = false
+			}
+			if sevFatal {
 				for _, st := range ifs.Body.List {
 					if a, ok := st.(*ast.AssignStmt); ok && strings.HasSuffix(expr(a.Lhs[0]), ".Severity") && expr(a.Rhs[0]) == "errors.Unknown" {
 						downPos = ifs.Pos()
@@ -564,6 +590,28 @@ func c02r4(c *RC) {
 			dom, _ := fl.Dominated(loc, func(n ast.Node, st *Step) bool { return isStateWrite(n, true) })
 			c.Check(dom, fn.QName()+"|task-made-OK-before-Assign", pr.Pos(k.Pos()),
 				"the task is handed to its machine's task set on a path where it has not been marked OK yet")
+			// ... and its location is recorded before it becomes OK: from that
+			// moment scans, dependents and Discard look the location up
+			for _, k2 := range callsIn(fn.Body) {
+				if fn.Pkg.CalleeName(k2) != "exec.(*Task).Set" || len(k2.Args) != 1 || expr(k2.Args[0]) != "TaskOk" {
+					continue
+				}
+				if sel, ok := k2.Fun.(*ast.SelectorExpr); !ok || expr(sel.X) != task {
+					continue
+				}
+				l2, ok2 := fl.LocOf(k2)
+				if !ok2 {
+					continue
+				}
+				located, tr := fl.Dominated(l2, func(n ast.Node, st *Step) bool {
+					return nodeHas(n, func(m ast.Node) bool {
+						call, isCall := m.(*ast.CallExpr)
+						return isCall && fn.Pkg.CalleeName(call) == "exec.(*bigmachineExecutor).setLocation" && len(call.Args) == 2 && expr(call.Args[0]) == task
+					})
+				})
+				c.Check(located, fn.QName()+"|location-recorded-before-OK", pr.Pos(k2.Pos()),
+					"the task becomes OK before the machine that holds its output is recorded: a scan, a dependent task or a Discard that acts on the task in that window finds no location (\"resource does not exist\", a fatal \"has no location\", or a task parked in RUNNING)", tr...)
+			}
 			late := ""
 			var trail []string
 			fl.Walk(Loc{loc.B, loc.I + 1}, "", nil, Visitor{NoFacts: true,
